@@ -128,15 +128,21 @@ std::string AnalyzerInformation::skipAnalysis(const tinyxml2::XMLDocument &analy
 
 std::string AnalyzerInformation::getAnalyzerInfoFileFromFilesTxt(std::istream& filesTxt, const std::string &sourcefile, const std::string &cfg, int fsFileId)
 {
+    // an entry for exactly this path wins over an entry whose path is only the tail of it ("main.c" vs "src/main.c")
+    std::string tailMatch;
     std::string line;
     while (std::getline(filesTxt,line)) {
         AnalyzerInformation::Info filesTxtInfo;
         if (!filesTxtInfo.parse(line))
             continue; // TODO: report error?
-        if (endsWith(sourcefile, filesTxtInfo.sourceFile) && filesTxtInfo.cfg == cfg && filesTxtInfo.fsFileId == fsFileId)
+        if (filesTxtInfo.cfg != cfg || filesTxtInfo.fsFileId != fsFileId)
+            continue;
+        if (sourcefile == filesTxtInfo.sourceFile)
             return filesTxtInfo.afile;
+        if (tailMatch.empty() && endsWith(sourcefile, filesTxtInfo.sourceFile))
+            tailMatch = filesTxtInfo.afile;
     }
-    return "";
+    return tailMatch;
 }
 
 std::string AnalyzerInformation::getAnalyzerInfoFile(const std::string &buildDir, const std::string &sourcefile, const std::string &cfg, std::size_t fsFileId)
